@@ -135,6 +135,16 @@ class ShmWire(Harness):
             hr.crashes.append({"fatal": f"b2c parsed from the AST differs from the imported module: {model.b2c} vs {real_b2c}"})
         if {v: k for k, v in api.b2c.items()} != api.c2b or len(set(api.b2c.values())) != len(api.b2c):
             hr.failures.append(self._fail("tag-table-not-bijective", "c2b is not the inverse of b2c", {"class": None}, True))
+        # every message class of the module (a class that defines, or inherits from a class of this module that defines, both
+        # ser and deser) needs exactly one wire tag: a class the tables do not know cannot be sent at all
+        for cname in self._message_classes(model):
+            tags = [t for t, c in model.b2c.items() if c == cname]
+            ob = {"kind": "has-wire-tag", "class": cname, "result": "agree" if len(tags) == 1 else "differ", "has_fields": bool(model.fields_of(cname))}
+            obligations.append(ob)
+            if len(tags) != 1:
+                lit = self._any_instance(api, model, cname)
+                ok, why = self.replay_accept(api, lit)
+                hr.failures.append(self._fail(f"{cname}-has-no-wire-tag", f"{lit!r}: {why}", {"kind": "accept", "class": cname, "fields": self._fields(lit)}, ok))
         for tag, cname in sorted(model.b2c.items()):
             # concrete boundary literals through the real code first (independent of the translator): whatever the
             # encoder accepts has to come back unchanged
@@ -258,6 +268,34 @@ class ShmWire(Harness):
             else:
                 fields[fname] = VEnum(ann, z3.IntVal(v.value))
         return VObj(cname, fields)
+
+    def _message_classes(self, model):
+        def methods(cname, seen=()):
+            c = model.classes.get(cname)
+            if c is None or cname in seen:
+                return set()
+            out = {st.name for st in c.body if isinstance(st, __import__("ast").FunctionDef)}
+            for b in c.bases:
+                out |= methods(__import__("ast").unparse(b), seen + (cname,))
+            return out
+
+        out = []
+        for cname, c in model.classes.items():
+            bases = [__import__("ast").unparse(b) for b in c.bases]
+            if "Protocol" in bases or "Enum" in bases:
+                continue
+            if {"ser", "deser"} <= methods(cname):
+                # a base class that only exists to be inherited from (it has subclasses in the module) is not itself a message
+                if any(cname in [__import__("ast").unparse(b) for b in o.bases] for o in model.classes.values()):
+                    continue
+                out.append(cname)
+        return out
+
+    def _any_instance(self, api, model, cname):
+        kw = {}
+        for fname, ann in model.fields_of(cname):
+            kw[fname] = "k" if ann == "str" else (1 if ann == "int" else list(getattr(api, ann))[0])
+        return getattr(api, cname)(**kw)
 
     def _boundary_literals(self, api, model, cname):
         fl = model.fields_of(cname)
